@@ -1773,6 +1773,8 @@ func (a *Agent) TaskPrepare(Command int, Info any, Message *map[string]string, C
 
 			var found = false
 
+			/* the check for an existing proxy, the bind and the new entry are one
+			 * critical section: two operators adding the same port get one proxy */
 			a.SocksSvrMtx.Lock()
 
 			for i := range a.SocksSvr {
@@ -1786,14 +1788,14 @@ func (a *Agent) TaskPrepare(Command int, Info any, Message *map[string]string, C
 				}
 			}
 
-			a.SocksSvrMtx.Unlock()
-
 			if found {
+				a.SocksSvrMtx.Unlock()
 				return nil, errors.New("a socks5 proxy on that port already exists")
 			}
 
 			Socks = socks.NewSocks("0.0.0.0:" + Param)
 			if Socks == nil {
+				a.SocksSvrMtx.Unlock()
 				return nil, errors.New("failed to create a new socks5 instance")
 			}
 
@@ -1870,9 +1872,13 @@ func (a *Agent) TaskPrepare(Command int, Info any, Message *map[string]string, C
 				/* generate some random socket id */
 				SocketId = int32(rand.Uint32())
 
-				s.Clients = append(s.Clients, SocketId)
-
 				a.SocksClientAdd(SocketId, conn, SocksHeader.ATYP, SocksHeader.IpDomain, SocksHeader.Port)
+
+				if !s.AddClient(SocketId) {
+					/* the proxy has been killed while this client was negotiating */
+					a.SocksClientClose(SocketId)
+					return
+				}
 
 				/* now parse the host:port and send it to the agent. */
 				ConnectJob = Job{
@@ -1959,8 +1965,20 @@ func (a *Agent) TaskPrepare(Command int, Info any, Message *map[string]string, C
 
 			})
 
-			/* TODO: append the socket to a list/array now */
-			a.SocksSvrMtx.Lock()
+			/* bind the port before the proxy is listed and before the operator is answered */
+			if err = Socks.Listen(); err != nil {
+				a.SocksSvrMtx.Unlock()
+
+				Socks.Failed = true
+				if Message != nil {
+					*Message = map[string]string{
+						"Type":    "Error",
+						"Message": fmt.Sprintf("Failed to start socks proxy: %v", err),
+						"Output":  "",
+					}
+				}
+				return nil, nil
+			}
 
 			a.SocksSvr = append(a.SocksSvr, &SocksServer{
 				Server: Socks,
@@ -1969,20 +1987,8 @@ func (a *Agent) TaskPrepare(Command int, Info any, Message *map[string]string, C
 
 			a.SocksSvrMtx.Unlock()
 
-			go func() {
-				err := Socks.Start()
-				if err != nil {
-					Socks.Failed = true
-					if Message != nil {
-						*Message = map[string]string{
-							"Type":    "Error",
-							"Message": fmt.Sprintf("Failed to start socks proxy: %v", err),
-							"Output":  "",
-						}
-					}
-					return
-				}
-			}()
+			/* the accept loop ends when the proxy is closed */
+			go Socks.Serve()
 
 			if Message != nil {
 				if !Socks.Failed {
@@ -2053,17 +2059,17 @@ func (a *Agent) TaskPrepare(Command int, Info any, Message *map[string]string, C
 					a.SocksSvr[i].Server.Close()
 
 					/* close every connection that the agent has with this socks proxy */
-					for client := range a.SocksSvr[i].Server.Clients {
+					for _, ClientID := range a.SocksSvr[i].Server.ClientIDs() {
 
 						/* close the client connection */
-						a.SocksClientClose(a.SocksSvr[i].Server.Clients[client])
+						a.SocksClientClose(ClientID)
 
 						/* make a new job */
 						var job = Job{
 							Command: COMMAND_SOCKET,
 							Data: []any{
 								SOCKET_COMMAND_CLOSE,
-								a.SocksSvr[i].Server.Clients[client],
+								ClientID,
 							},
 						}
 
@@ -2116,17 +2122,17 @@ func (a *Agent) TaskPrepare(Command int, Info any, Message *map[string]string, C
 				a.SocksSvr[i].Server.Close()
 
 				/* close every connection that the agent has with this socks proxy */
-				for client := range a.SocksSvr[i].Server.Clients {
+				for _, ClientID := range a.SocksSvr[i].Server.ClientIDs() {
 
 					/* close the client connection */
-					a.SocksClientClose(a.SocksSvr[i].Server.Clients[client])
+					a.SocksClientClose(ClientID)
 
 					/* make a new job */
 					var job = Job{
 						Command: COMMAND_SOCKET,
 						Data: []any{
 							SOCKET_COMMAND_CLOSE,
-							a.SocksSvr[i].Server.Clients[client],
+							ClientID,
 						},
 					}
 
